@@ -23,17 +23,17 @@ macro_rules! __array_map2__with_parsed_closure {
 
             let mut builder = $crate::array::ArrayBuilder::new();
 
-            builder.infer_length_from_consumer(&consumer);
+            $crate::array::ArrayBuilder::infer_length_from_consumer(&builder, &consumer);
 
-            while let Some(elem) = consumer.next() {
+            while let Some(elem) = $crate::array::ArrayConsumer::next(&mut consumer) {
                 let elem = $crate::__::ManuallyDrop::into_inner(elem);
                 let $($pattern)* = elem;
                 let mapped $(: $ret)? = $mapper;
-                builder.push(mapped);
+                $crate::array::ArrayBuilder::push(&mut builder, mapped);
             }
             $crate::__::mem::forget(consumer);
 
-            builder.build()
+            $crate::array::ArrayBuilder::build(builder)
         }
     })
 }
